@@ -156,10 +156,10 @@ func (e *engine) allowedHolder(st types.Type, field *types.Var) (bool, string) {
 		return false, ""
 	}
 	name := n.Obj().Pkg().Name() + "." + n.Obj().Name() + "." + field.Name()
-	switch name {
-	case "text.File.offset":
-		return true, "the file's base offset itself (written by SetOffset)"
-	case "parsley.FileSet.pos", "parsley.FileSet.offset":
+	if e.fileIf != nil && (types.Implements(n, e.fileIf) || types.Implements(types.NewPointer(n), e.fileIf)) {
+		return true, "a field of the file object itself (its base offset is written by SetOffset)"
+	}
+	if n.Obj().Pkg().Name() == "parsley" && n.Obj().Name() == "FileSet" {
 		return true, "the file set's allocation of base offsets"
 	}
 	pt := types.NewPointer(n)
